@@ -22,7 +22,8 @@ RULE = ('worlds drawn from the seeded spec generator (1-6 segments, rarely 100+;
 
 def opts(tier):
     o = gen.Opts()
-    o.huge_p = 0.002
+    o.huge_p = 0.003
+    o.huge_classes = ['k64', 'm1', 'm1', 'm16']
     o.long_run_p = 0.006
     o.short_last_p = 0.05
     o.equal_shapes_p = 0.15
